@@ -5,3 +5,4 @@ pub mod graphs;
 pub mod inst;
 pub mod tr;
 pub mod dd;
+pub mod xf;
